@@ -562,6 +562,11 @@ func check(c Case) *vfrun.Failure {
 								if have == im {
 									found = true
 								}
+								// an import the user wrote without a name may come back with the
+								// package's own name spelled out (rand "math/rand/v2"): the same import
+								if !strings.Contains(im, " ") && strings.HasSuffix(have, " "+im) && !strings.HasPrefix(have, ". ") && !strings.HasPrefix(have, "_ ") {
+									found = true
+								}
 							}
 							if !found {
 								key2 := "rewrite.import-dropped"
@@ -681,6 +686,8 @@ var importUses = []struct{ imp, stmt string }{
 	{". PKG/dotutil", "_ = DotWrap(\"d\")"},
 	// an alias that is not the package's name but happens to be the tail of its path
 	{"util PKG/strutil", "_ = util.Pad(\"p\")"},
+	// a standard-library package whose name is not the last element of its path
+	{"math/rand/v2", "_ = rand.IntN(3)"},
 }
 
 func genBody(t *rapid.T, n int, allowReservedImport bool) (string, []string) {
@@ -698,7 +705,7 @@ func genBody(t *rapid.T, n int, allowReservedImport bool) (string, []string) {
 	if rapid.Bool().Draw(t, "useimport") {
 		pool := importUses
 		if !allowReservedImport {
-			pool = append(append([]struct{ imp, stmt string }{}, importUses[:3]...), importUses[4], importUses[5], importUses[6])
+			pool = append(append([]struct{ imp, stmt string }{}, importUses[:3]...), importUses[4], importUses[5], importUses[6], importUses[7])
 		}
 		u := pool[rapid.IntRange(0, len(pool)-1).Draw(t, "import")]
 		parts = append(parts, u.stmt)
